@@ -13,9 +13,11 @@
 package c14
 
 import (
+	"context"
 	"encoding/base64"
 	"encoding/json"
 	"fmt"
+	"github.com/ProtonMail/gluon/connector"
 	"github.com/ProtonMail/gluon/limits"
 	"os"
 	"path/filepath"
@@ -65,9 +67,10 @@ type queryT struct {
 }
 
 type connT struct {
-	Target chars   `json:"target"`
-	Comps  []chars `json:"comps"`
-	Rec    bool    `json:"rec"`
+	Target chars     `json:"target"`
+	Comps  []chars   `json:"comps"`
+	Rec    bool      `json:"rec"`
+	More   [][]chars `json:"more"` // StateWrite: the further mailboxes of the same write transaction
 }
 
 type stepT struct {
@@ -298,7 +301,7 @@ func cmdText(s *stepT) string {
 		return "RENAME " + wireName(s.Args[0].T) + " " + wireName(s.Args[1].T)
 	case "APPEND":
 		return "APPEND INBOX {marker}"
-	case "MailboxCreated", "MailboxUpdated", "MailboxDeleted":
+	case "MailboxCreated", "MailboxUpdated", "MailboxDeleted", "StateWrite":
 		var cs []string
 		for _, c := range s.Conn.Comps {
 			cs = append(cs, text(c))
@@ -662,6 +665,47 @@ func (p *player) connStep(s *stepT) (string, string) {
 	for _, c := range s.Conn.Comps {
 		comps = append(comps, text(c))
 	}
+	if s.Act == "StateWrite" {
+		// the connector creates the mailboxes itself through the IMAPState handle gluon gave it: one write transaction
+		st := p.u.conn.State
+		if st == nil {
+			return "", "the harness connector never received an IMAPState (Init not called?)"
+		}
+		names := [][]string{comps}
+		for _, m := range s.Conn.More {
+			var cs []string
+			for _, c := range m {
+				cs = append(cs, text(c))
+			}
+			names = append(names, cs)
+		}
+		var made []imap.MailboxID
+		ctx, cancel := context.WithTimeout(context.Background(), 20*time.Second)
+		defer cancel()
+		err := st.Write(ctx, func(ctx context.Context, w connector.IMAPStateWrite) error {
+			for _, n := range names {
+				p.nID++
+				id := imap.MailboxID(fmt.Sprintf("vw-%s-%d", p.u.name, p.nID))
+				if err := w.CreateMailbox(ctx, imap.Mailbox{ID: id, Name: n, Flags: p.u.conn.Flags, PermanentFlags: p.u.conn.PermFlags, Attributes: p.u.conn.Attrs}); err != nil {
+					return err
+				}
+				made = append(made, id)
+			}
+			return nil
+		})
+		if err != nil {
+			return "err", ""
+		}
+		for i, id := range made {
+			p.u.conn.Mailboxes[id] = names[i]
+		}
+		if s.Status == "ok" {
+			if m := p.bind(s, ""); m != "" {
+				return "ok", m
+			}
+		}
+		return "ok", ""
+	}
 	var id imap.MailboxID
 	if s.Conn.Rec {
 		id = ids.GluonInternalRecoveryMailboxRemoteID
@@ -745,7 +789,7 @@ func (p *player) run() outcome {
 		other := 3 - sess
 		var got string
 		var res wire.Result
-		isConn := strings.HasPrefix(s.Act, "Mailbox")
+		isConn := strings.HasPrefix(s.Act, "Mailbox") || s.Act == "StateWrite"
 		if isConn {
 			if !p.fam.InProc {
 				out.machinery = "connector step in a wire-only family"
@@ -1110,7 +1154,7 @@ func RunLimitFamily(r *ev.Run, num int, seed int64) {
 	refused := 0
 	for _, b := range behs {
 		for _, st := range b.Trace {
-			if (st.Status == "NO" || st.Status == "err") && (st.Act == "CREATE" || st.Act == "RENAME" || st.Act == "MailboxCreated") {
+			if (st.Status == "NO" || st.Status == "err") && (st.Act == "CREATE" || st.Act == "RENAME" || st.Act == "MailboxCreated" || st.Act == "StateWrite") {
 				refused++
 			}
 		}
